@@ -134,6 +134,30 @@ def firstInst : List (Op α) → Option α
   | .set (.inst x) :: _ => some x
   | _ :: ops => firstInst ops
 
+/-! ### in-place processing (`TimeSeries.modify`) -/
+
+/-- Samples selected by a mask (the samples a time window retains; positions beyond the mask are dropped). -/
+def keepMask : List Bool → List α → List α
+  | true :: m, a :: l => a :: keepMask m l
+  | false :: m, _ :: l => keepMask m l
+  | _, _ => []
+
+/-- `modify(twin=…)`: the time array is replaced by the retained samples, the reference stays, and the cached array of
+absolute date-times — which belongs to the former time array — is dropped (F54: it used to be kept). -/
+def modifyKeep (mask : List Bool) (s : St α) : St α := ⟨s.ref, keepMask mask s.t, Option.none⟩
+
+/-- Histories that also process the series in place. -/
+inductive OpX (α : Type) where
+  | base (op : Op α)
+  | keep (mask : List Bool)
+  deriving DecidableEq, Repr
+
+def stepX (s : St α) : OpX α → St α
+  | .base op => step s op
+  | .keep m => modifyKeep m s
+
+def runX (s : St α) (ops : List (OpX α)) : St α := ops.foldl stepX s
+
 /-! ### `TsDB._check_time_arrays`: the rule on references -/
 section refs
 variable [DecidableEq α]
